@@ -346,6 +346,13 @@ def directed_scripts(variant):
             "cfg grace=1 soft=8 hard=8 tcap=8", "sink 0 lvl=0", "logger 0 sinks=0 lvl=0", "start", "T 1 start", "T 2 start",
             "L 1 0 4 10", "L 2 0 4 10", "K 1000000", "P", "P", "P", "QC 1", "SH 1 256", "L 1 0 4 700", "K 1", "L 2 0 4 10",
             "K 1000000", "P", "P", "P", "P", "Q", "X"]))
+    # C20 (unbounded builds): the queue grows to the maximum, is drained, shrunk on request; the statements that follow need a
+    # larger buffer again, which is far below the maximum — none of them may be dropped / block
+    if variant >= 2:
+        out.append(("dir_regrow_after_shrink", [
+            "cfg grace=0 soft=4 hard=8 tcap=2", "sink 0 lvl=0", "logger 0 sinks=0 lvl=0", "start", "T 1 start"] +
+            ["L 1 0 4 900"] * 4 + ["QC 1", "K 1000000"] + ["P"] * 6 + ["QC 1", "SH 1 512"] + ["L 1 0 4 300"] * 4 +
+            ["QC 1", "K 1000000", "P", "R 1", "P", "R 1", "P", "P", "P", "Q", "X"]))
     # unbounded builds: a thread that ran into the maximum capacity (its failure counter is bumped, and nothing ever reports
     # or resets it for an unbounded queue) and then exits must still be reclaimed — the "unreported counter keeps the
     # context" rule of the F24 repair is for bounded queues only
@@ -425,6 +432,14 @@ def directed_scripts(variant):
     out.append(("dir_named_after_fault", [
         "cfg grace=0 soft=4 hard=8 tcap=2", "sink 0 lvl=0 wthrow=1", "logger 0 sinks=0 lvl=0", "start", "T 1 start",
         "LN 1 0 10", "P", "L 1 0 4 10", "P", "L 1 0 4 10", "P", "L 1 0 4 10", "P", "L 1 0 4 10", "P", "LN 1 0 10", "P", "L 1 0 4 10", "P", "P", "Q"]))
+    # C16: the level filter of a sink is lowered at run time AFTER the logger's first statement was processed; a statement
+    # in between the old and the new value goes to that sink — and only to it, whatever the logger's other sink says
+    out.append(("dir_sink_level_lowered", [
+        "cfg grace=0 soft=4 hard=8 tcap=2", "sink 0 lvl=6", "logger 0 sinks=0 lvl=0", "start", "T 1 start",
+        "L 1 0 6 10", "P", "P", "SS 0 3", "L 1 0 4 10", "L 1 0 3 10", "L 1 0 2 10", "P", "P", "P", "P", "Q", "X"]))
+    out.append(("dir_sink_level_lowered_sibling", [
+        "cfg grace=0 soft=4 hard=8 tcap=2", "sink 0 lvl=7", "sink 1 lvl=8", "logger 0 sinks=0,1 lvl=0", "start", "T 1 start",
+        "L 1 0 8 10", "P", "P", "SS 1 4", "L 1 0 4 10", "L 1 0 7 10", "P", "P", "P", "SS 1 8", "L 1 0 6 10", "P", "P", "Q", "X"]))
     # drops that land while the backend is reporting earlier drops of the same thread must still be reported
     if variant % 2 == 1:
         out.append(("dir_drop_during_report", [
@@ -545,6 +560,7 @@ def oracles(lines):
     last_write_idx = {}  # id -> index in write_order
     loggers_sinks = {g: list(d["sinks"]) for g, d in rec["loggers"].items()}
     last_cap = {}
+    shrunk = {}         # actor -> dict(cap, used): its shrink request took effect and everything it enqueued since fits the new buffer
     unknown_outcomes = [0]
     # ---- C06 liveness (F34): a flush_log caller parked across polls that process nothing although older ripe statements wait
     f34_wait = {}       # actor -> clock value of its flush_log call while it is parked in it
@@ -555,6 +571,9 @@ def oracles(lines):
     rb_wait = {}        # actor -> (logger name, its sinks) while parked in remove_logger_blocking (C17)
     erased_sinks = set()    # sinks whose destructor ran in an EARLIER operation: every logger that listed them is erased
     erased_now = set()      # … in the current operation (the flag is raised at the end of the clean-up pass)
+    # C16 under run-time changes of a sink's level filter (Sink::set_log_level_filter): every value the filter of a sink has had,
+    # in order; a statement remembers how many there were when its log call began, a write how many when it happened
+    sink_hist = {s: [d["lvl"]] for s, d in rec["sinks"].items()}
 
     def handle_front(w, res, t_now):
         nonlocal dyn_cfg_changes, dropped_log_calls, removed_loggers, backtrace_used
@@ -563,10 +582,14 @@ def oracles(lines):
             return
         if op not in ("QC", "SH") and len(w) > 1 and w[1].isdigit():
             last_cap.pop(int(w[1]), None)   # any other call of that thread may have grown its queue since the capacity was read
+        if op not in ("QC", "SH", "L") and len(w) > 1 and w[1].isdigit():
+            shrunk.pop(int(w[1]), None)     # a call whose size is not known here
         if op == "QC":
             m = re.match(r"cap=(\d+)", res)
             if m:
                 last_cap[int(w[1])] = int(m.group(1))
+                if shrunk.get(int(w[1]), {}).get("cap") != int(m.group(1)):
+                    shrunk.pop(int(w[1]), None)
             return
         if op == "SH":
             m = re.match(r"cap=(\d+)", res)
@@ -579,6 +602,10 @@ def oracles(lines):
                 expect = p2 if want <= before // 2 else before
                 if after != expect:
                     viol.append(("C20", "shrink request of actor %d to %d with capacity %d: capacity reported afterwards %d, expected %d" % (a, want, before, after, expect)))
+                if after < before:
+                    shrunk[a] = dict(cap=after, used=0)    # it took effect: the thread now writes to a fresh buffer of `after` bytes
+            else:
+                shrunk.pop(a, None)
             return
         if op in ("L", "LS", "LB", "LN", "LU"):
             m = re.match(r"id=(\d+)", res)
@@ -591,7 +618,23 @@ def oracles(lines):
             if op == "LB":
                 backtrace_used = True
             st = stmts.setdefault(i, dict(actor=a, g=g, lvl=lvl, ts=t_now, enq=None, ret=None, op=op, sinks=list(loggers_sinks.get(g, [])),
+                                          h0={s: len(h) for s, h in sink_hist.items()},
                                           inj_poll=f34_cur["poll"], inj_site=f34_cur["site"]))
+            # C20 "shrinking … without losing statements": the shrunk buffer still has its reported capacity c (the thread has put
+            # no more than c bytes into it, so nothing made it grow), a buffer of 2c is within the configured maximum and takes
+            # this statement — a refusal (drop / block) now is a statement lost to the shrink request
+            sh = shrunk.get(a) if op == "L" and len(w) > 4 else None
+            mb = re.search(r"ret=1 .*bytes=(\d+)", res)
+            if sh and ("parked:sleep" in res or "ret=0" in res) and "threw" not in res and 2 * sh["cap"] <= cfg.get("qmax", 0) \
+                    and int(w[4]) + 64 <= 2 * sh["cap"]:
+                viol.append(("C20", "after the shrink request of actor %d took effect (capacity reported %d, %d bytes enqueued since) its statement "
+                             "id=%d of %s+~40 bytes was %s although a buffer of %d bytes is within the configured maximum %d and would take it: "
+                             "shrinking the queue made it refuse (lose) statements" % (
+                                 a, sh["cap"], sh["used"], i, w[4], "blocked (the call sleeps on a full queue)" if "parked" in res else "dropped", 2 * sh["cap"], cfg.get("qmax", 0))))
+            if sh and mb and sh["used"] + int(mb.group(1)) <= sh["cap"]:
+                sh["used"] += int(mb.group(1))
+            else:
+                shrunk.pop(a, None)
             if "parked" in res:
                 pending_by_actor[a] = i
                 park_mark[a] = (idle["epoch"], idle["streak"])
@@ -639,6 +682,8 @@ def oracles(lines):
             removed_loggers = True
         elif op in ("SL", "SS", "DS"):
             dyn_cfg_changes = True
+            if op == "SS" and res == "ok" and int(w[1]) in sink_hist:
+                sink_hist[int(w[1])].append(int(w[2]))
         elif op == "T" and w[2] == "exit" and res == "ok":
             exited.add(int(w[1]))
             f34_wait.pop(int(w[1]), None)
@@ -738,6 +783,18 @@ def oracles(lines):
     def accepts(sk, st, i):
         return st["lvl"] >= sk["lvl"] and not (sk["m"] > 0 and i % sk["m"] == sk["r"])
 
+    def levels_between(s, st, upto=None):
+        """every value the level filter of sink s has had from the beginning of st's log call to the `upto`-th change (default:
+        the end of the script); the statement is handed to the sinks somewhere in that window, the filter is read then"""
+        h = sink_hist.get(s, [])
+        return h[max(0, st.get("h0", {}).get(s, 1) - 1):upto]
+
+    def accepts_throughout(s, sk, st, i):
+        return not (sk["m"] > 0 and i % sk["m"] == sk["r"]) and all(st["lvl"] >= x for x in levels_between(s, st))
+
+    def rejects_throughout(s, sk, st, i, upto):
+        return (sk["m"] > 0 and i % sk["m"] == sk["r"]) or all(st["lvl"] < x for x in levels_between(s, st, upto))
+
     def pat_blocker(st, i, s):
         """w2_faults: the sink of st's logger, at or before `s` in the logger's list, whose override pattern cannot be built and
         which the statement reaches (its level and filter accept it): the dispatch ends there"""
@@ -750,6 +807,7 @@ def oracles(lines):
         return None
 
     widx = [0]
+    wr_h = {}           # (sink, id) -> number of values the sink's level filter had had at the first write
 
     def handle_event(e):
         nonlocal dropped_reported
@@ -765,6 +823,7 @@ def oracles(lines):
                 viol.append(("C10", "statement id=%d was handed to sink %d %s key/value pairs although it was logged %s named placeholders" % (
                     i, s, "with" if has_na else "without", "with" if stx["op"] == "LN" else "without")))
             written[(s, i)] = written.get((s, i), 0) + 1
+            wr_h.setdefault((s, i), len(sink_hist.get(s, [])))
             write_order.append((s, i, lvl, ts))
             last_write_idx[(s, i)] = widx[0]
             widx[0] += 1
@@ -936,8 +995,9 @@ def oracles(lines):
         if st and s not in st["sinks"] and not removed_loggers:
             viol.append(("C16", "statement id=%d reached sink %d which does not belong to its logger" % (i, s)))
         sk = rec["sinks"].get(s)
-        if st and sk and not dyn_cfg_changes and not accepts(sk, st, i):
-            viol.append(("C16", "statement id=%d (level %d) reached sink %d although its level filter %d / filter rejects it" % (i, st["lvl"], s, sk["lvl"])))
+        if st and sk and rejects_throughout(s, sk, st, i, wr_h.get((s, i))):
+            viol.append(("C16", "statement id=%d (level %d) reached sink %d although its level filter %s / filter rejects it" % (
+                i, st["lvl"], s, "/".join(map(str, levels_between(s, st, wr_h.get((s, i))))))))
     # level recorded by the sink equals the level given
     for (s, i, lvl, ts) in write_order:
         st = stmts.get(i)
@@ -964,7 +1024,7 @@ def oracles(lines):
     _ops = rec["ops"]
     drained = bool(_ops) and (_ops[-1][0][0] == "X" or
                               sum(1 for (w2, _, _) in _ops[-260:] if w2[0] == "K" and len(w2) > 1 and w2[1].isdigit() and int(w2[1]) >= 2000000) >= 10)
-    if not has_faults and not dyn_cfg_changes and not removed_loggers and drained:
+    if not has_faults and not (has_pat and dyn_cfg_changes) and not removed_loggers and drained:
         for i, st in stmts.items():
             if st["ret"] is not True or st["lvl"] == 9:
                 continue
@@ -982,8 +1042,13 @@ def oracles(lines):
                                          "comes after sink %d in the logger's list" % s if bad and st["sinks"].index(bad[0]) > st["sinks"].index(s)
                                          else "rejects this statement by its level/filter, so its formatter is not needed for it")))
                     continue
-                if sk and accepts(sk, st, i) and written.get((s, i), 0) == 0:
+                if sk and accepts_throughout(s, sk, st, i) and written.get((s, i), 0) == 0:
                     viol.append(("C08" if dropping else "C03", "accepted statement id=%d (actor %d) never reached sink %d" % (i, st["actor"], s)))
+                    if len(sink_hist.get(s, [])) > 1:
+                        viol.append(("C16", "statement id=%d (level %d) was enqueued and is at or above the level filter of sink %d at every moment since "
+                                     "its log call (values of the filter since then: %s; changed at run time, all values of the script: %s) and "
+                                     "accepted by its filter, but was never written to it" % (
+                                         i, st["lvl"], s, "/".join(map(str, levels_between(s, st))), "/".join(map(str, sink_hist[s])))))
                     if st["actor"] in exited:
                         viol.append(("C20", "statement id=%d of exited thread %d was accepted but never delivered to sink %d (its context was reclaimed or skipped with the statement pending)" % (i, st["actor"], s)))
     if dropping and xs_seen and cfg.get("variant", 0) == 1 and not unknown_outcomes[0]:
